@@ -86,6 +86,8 @@ type spinResult struct {
 	RW         int64  `json:"reader_writer_overlaps"`
 	First      string `json:"first"`
 	LeftLocked int    `json:"left_locked"`
+	// Unusable: keys that, at quiescence, a reader or - after a reader came and went - a writer cannot lock
+	Unusable int `json:"unusable_at_quiescence"`
 	Pattern    string `json:"pattern"`
 }
 
@@ -106,8 +108,16 @@ func spinStress(seed int64, pattern string, iters int) spinResult {
 		return &pb.Transaction{Txid: []byte(fmt.Sprintf("s%d", id)), TxInputs: []*protos.TxInput{{RefTxid: []byte("coin"), RefOffset: 0}},
 			TxOutputs: []*protos.TxOutput{{ToAddr: []byte("x"), Amount: []byte{1}}}}
 	}
-	var nr, nw, ns int
+	// reads one key and writes the other (two lock keys: a shared one sorting before an exclusive
+	// one, so a loser of the race for the second has already joined the readers of the first)
+	mkReadWrite := func(id int) *pb.Transaction {
+		return &pb.Transaction{Txid: []byte(fmt.Sprintf("rw%d", id)), TxInputsExt: []*protos.TxInputExt{{Bucket: "vb", Key: []byte("a")}, {Bucket: "vb", Key: []byte("b")}},
+			TxOutputsExt: []*protos.TxOutputExt{{Bucket: "vb", Key: []byte("b"), Value: []byte("v")}}}
+	}
+	var nr, nw, ns, nrw int
 	switch pattern {
+	case "read-a-write-b":
+		nr, nrw = 2, 6
 	case "readers+writers":
 		nr, nw = 8, 4
 	case "writers":
@@ -172,12 +182,43 @@ func spinStress(seed int64, pattern string, iters int) spinResult {
 		})
 		id++
 	}
+	for i := 0; i < nrw; i++ {
+		wg.Add(1)
+		me := id
+		go worker(id, func(r *rand.Rand) (*pb.Transaction, []want) {
+			return mkReadWrite(me), []want{{"vb/a", false}, {"vb/b", true}}
+		})
+		id++
+	}
 	wg.Wait()
 	res.WW, res.RW, res.First = h.ww, h.rw, h.first
 	// at quiescence nothing may stay locked
 	for _, k := range []string{"vb/a", "vb/b", "coin_0"} {
 		if sp.IsLocked(k) {
 			res.LeftLocked++
+		}
+	}
+	// ... and the locks must still WORK: a reader comes and goes, then a writer must get each key
+	// (a reader count that a lost race left too high keeps the entry alive after the next reader)
+	if res.LeftLocked == 0 {
+		for _, k := range keys {
+			rd := sp.ExtractLockKeys(mkReader(k))
+			if got, ok := sp.TryLock(rd); !ok {
+				res.Unusable++
+				sp.Unlock(got)
+				continue
+			} else {
+				sp.Unlock(got)
+			}
+			wr := sp.ExtractLockKeys(mkWriter(k, 999))
+			got, ok := sp.TryLock(wr)
+			if !ok {
+				res.Unusable++
+				if res.First == "" {
+					res.First = fmt.Sprintf("after every worker has released and one more reader came and went, a writer of key %q is refused", k)
+				}
+			}
+			sp.Unlock(got)
 		}
 	}
 	return res
